@@ -1,4 +1,5 @@
 import Pyunicorn.Lemmas.Window
+import Pyunicorn.Generated.ArithC13
 /-!
 # C13 — Data windows select exactly the requested samples; anomalies sum
 
@@ -8,6 +9,7 @@ and the `_mut_window`-keyed memoisation.  The model is tied to the Python
 classes by the history-level correspondence in `harness/c13.py`.
 -/
 namespace Pyunicorn.Window
+open Pyunicorn.Generated
 
 /-! ## 1. The window exposes exactly the samples inside the closed window -/
 
@@ -1058,6 +1060,93 @@ theorem anomaly_selected_months_spec (o : Obj) (ops : List Op) (hi : o.Inv) (mon
     show (o.run ops).anomalyFresh.getD t [] ∈ (o.run ops).anomalyFresh
     rw [List.getD, List.getElem?_eq_getElem this]
     exact List.getElem_mem _
+
+/-! ## 15. The model is built from the expressions of the current source
+
+`Pyunicorn.Generated.ArithC13` is regenerated from `data.py` / `climate_data.py` on
+every run (`translate/arith_C13.json`); the theorems below state that the model uses
+exactly those comparison, index, slice and counter expressions. -/
+
+/-- `time_indices`: the degenerate test and the element-wise comparison of the source -/
+theorem gen_timeMask (w : Win) (time : Vec) :
+    timeMask w time
+      = if ArithC13.timeDegenerate w.tmin w.tmax then List.replicate time.length true
+        else time.map fun x => ArithC13.timeCond x w.tmin w.tmax := by
+  unfold timeMask ArithC13.timeDegenerate
+  by_cases h : w.tmin = w.tmax
+  · simp [h]
+  · simp only [h, if_false, decide_false]
+    apply List.map_congr_left
+    intro x _
+    simp [inRange, ArithC13.timeCond, GE.ge]
+
+/-- `space_indices`: the degenerate test (`or`) and the four comparisons of the source -/
+theorem gen_spaceMask (w : Win) (lat lon : Vec) :
+    spaceMask w lat lon
+      = if ArithC13.spaceDegenerate w.latmin w.latmax w.lonmin w.lonmax
+        then List.replicate lat.length true
+        else List.zipWith (fun la lo =>
+          ArithC13.spaceCond la lo w.latmin w.latmax w.lonmin w.lonmax) lat lon := by
+  unfold spaceMask ArithC13.spaceDegenerate
+  by_cases h : w.latmin = w.latmax ∨ w.lonmin = w.lonmax
+  · simp [h]
+  · simp only [h, if_false, decide_false]
+    congr 1
+    funext la lo
+    simp [inBox, inRange, ArithC13.spaceCond, GE.ge, Bool.and_assoc]
+
+/-- `phase_indices()`: `range_years = int(T / c)` is `⌊T / c⌋`, and the arguments of
+`np.arange` / the assigned row are those of `phaseIndicesLoop` -/
+theorem gen_phaseIndices (T c i : Nat) (hc : 0 < c) :
+    ArithC13.rangeYears (T : Int) (c : Int) = ((T / c : Nat) : Int)
+    ∧ ArithC13.arangeStart (i : Int) = (i : Int)
+    ∧ ArithC13.arangeStop ((T / c : Nat) : Int) (c : Int) = ((T / c * c : Nat) : Int)
+    ∧ ArithC13.arangeStep (c : Int) = (c : Int)
+    ∧ ArithC13.piRow (i : Int) = (i : Int) := by
+  refine ⟨floor_div_nat T c hc, rfl, ?_, rfl, rfl⟩
+  simp [ArithC13.arangeStop]
+
+/-- the strided slices `observable[i::c]`, `anomaly[i::c]` and the row `phase_mean[i]`
+of the source are the `everyNth c i` / `setEveryNth c i` / `set i` of the model -/
+theorem gen_slices (i c : Int) :
+    ArithC13.pmRow i = i ∧ ArithC13.pmSliceStart i = i ∧ ArithC13.pmSliceStep c = c
+    ∧ ArithC13.anReadStart i = i ∧ ArithC13.anReadStep c = c
+    ∧ ArithC13.anWriteStart i = i ∧ ArithC13.anWriteStep c = c :=
+  ⟨rfl, rfl, rfl, rfl, rfl, rfl, rfl⟩
+
+/-- `indices_selected_months`: the dispatch on the cycle length and the day numbers
+`month * 30 + day`, `day ∈ range(30)`, are those of the source -/
+theorem gen_months (c T : Nat) (months : List Int) :
+    indicesSelectedMonthsI c T months
+      = (if ArithC13.cycleIsMonthly (c : Int) then indicesSelectedPhasesI c T months
+         else if ArithC13.cycleIsDaily (c : Int) then
+           indicesSelectedPhasesI c T (months.flatMap fun m =>
+             (List.range ArithC13.daysPerMonth.toNat).map fun (d : Nat) => ArithC13.monthDay m (d : Int))
+         else .notImplemented) := by
+  unfold indicesSelectedMonthsI ArithC13.cycleIsMonthly ArithC13.cycleIsDaily
+  have e1 : ((c : Int) = 12) = (c = 12) := by apply propext; omega
+  have e2 : ((c : Int) = 360) = (c = 360) := by apply propext; omega
+  simp only [e1, e2, decide_eq_true_eq]
+  rw [monthDays_eq]
+  rfl
+
+/-- the cache counter: `_mut_window += 1` once per accepted `set_window`, twice per
+`set_global_window` -/
+theorem gen_bump (o : Obj) (w : Win) :
+    ((o.setWindow w).1 = false → ((o.setWindow w).2.ver : Int) = ArithC13.bumpWindow o.ver)
+    ∧ (o.setGlobal.1 = false →
+        (o.setGlobal.2.ver : Int) = ArithC13.bumpGlobal (ArithC13.bumpWindow o.ver)) := by
+  constructor
+  · intro h
+    unfold Obj.setWindow at h ⊢
+    split
+    · rename_i hv; simp [hv] at h
+    · simp [ArithC13.bumpWindow]
+  · intro h
+    unfold Obj.setGlobal Obj.setWindow at h ⊢
+    cases hv : applyWindow o.full globalWin with
+    | none => simp [hv] at h
+    | some v => simp [ArithC13.bumpWindow, ArithC13.bumpGlobal]
 
 /-! ## 7. Non-vacuity: concrete states satisfying the hypotheses -/
 
